@@ -183,3 +183,17 @@
     broadcast use group_std_extra;
     broadcast use vstd::std_specs::hash::group_hash_axioms;
     broadcast use axiom_naming_key_model;
+@@ NamingActor::clear_one_empty_service spec
+    // C11: "empty services are only dropped when they really have no instances" — the periodic clean-up removes at most this one
+    // service, and only when its instance counter is zero (with the service invariant: when it has no instance); nothing else changes
+    requires old(self).services_wf(),
+        now >= old(self).sys_config.service_time_out_millis,   // A-CLOCK: `now` is the wall clock in ms, far above any configured time-out
+    ensures final(self).client_instance_set == old(self).client_instance_set,
+        forall|k2: ServiceKey| k2 != service_map_key && #[trigger] old(self).service_map@.contains_key(k2)
+            ==> final(self).service_map@.contains_key(k2) && final(self).service_map@[k2] == old(self).service_map@[k2],
+        forall|k2: ServiceKey| #[trigger] final(self).service_map@.contains_key(k2) ==> old(self).service_map@.contains_key(k2) && final(self).service_map@[k2] == old(self).service_map@[k2],
+        (old(self).service_map@.contains_key(service_map_key) && old(self).service_map@[service_map_key].instances@.len() > 0)
+            ==> final(self).service_map@.contains_key(service_map_key),
+@@ NamingActor::clear_one_empty_service entry
+    broadcast use vstd::std_specs::hash::group_hash_axioms;
+    broadcast use axiom_naming_key_model;
